@@ -192,6 +192,23 @@ def check_from_json_sites(ctx, rep):
                     rep.bad('C13.W', k2, where(ci.module, n), {'call': norm_text(n)[:100]},
                             f"{ci.name}.from_json builds the nested specification data['{nested_key}'] with a direct "
                             f"{ast.unparse(n.func)}(...) call: the object is never registered and a duplicate id is not detected")
+        # W4: a parse error raised while resolving a nested specification must propagate: a handler that swallows it turns a dangling reference or a
+        # duplicate id into a silently substituted default
+        for t in ast.walk(fn):
+            if not isinstance(t, ast.Try):
+                continue
+            guarded = [c for b in t.body for c in ast.walk(b) if isinstance(c, ast.Call) and (dotted_name(c.func) or '').split('.')[-1] in PROCESS_FUNCS]
+            if not guarded:
+                continue
+            for h in t.handlers:
+                names = [] if h.type is None else [x.id if isinstance(x, ast.Name) else (x.attr if isinstance(x, ast.Attribute) else '') for x in ast.walk(h.type) if isinstance(x, (ast.Name, ast.Attribute))]
+                catches = h.type is None or any(n_ in ('JSONParseError', 'Exception', 'BaseException', 'KeyError') for n_ in names)
+                reraises = any(isinstance(x, ast.Raise) for b in h.body for x in ast.walk(b))
+                if catches:
+                    rep.check('C13.W', f"{ci.qualname}::parse-errors-of-nested-specifications-propagate::{norm_text(guarded[0])[:40]}", reraises, where(ci.module, h),
+                              {'handler': ast.unparse(h.type) if h.type is not None else 'bare except'},
+                              f"{ci.name}.from_json catches {ast.unparse(h.type) if h.type is not None else 'every exception'} around `{norm_text(guarded[0])[:50]}` and carries on: "
+                              f"a reference to an undefined id (or a duplicate definition) there is silently replaced instead of being rejected")
         # W3: a registered object must reach the constructor itself, not a private copy built from its id / tensor
         reg_names = set()
         reg_subs = set()
@@ -604,3 +621,6 @@ def run(ctx, rep):
     check_main(ctx, rep)
     check_remove_comments(ctx, rep)
     check_factories(ctx, rep)
+    # a from_json must not change a registered (possibly already shared) object behind the back of its other holders
+    from props import c11
+    c11.check_inplace(ctx, rep, rule='C13.W', only=lambda m, fn: fn.name in ('from_json', '_from_json', 'from_json_safe'))
